@@ -431,7 +431,13 @@ func buildSPRs(chain factom.Bytes32, cfg Config, h uint32, s *SPRSpec, base []ui
 		if s.ForeignSigner > 0 {
 			signer = s.ForeignSigner
 		}
-		out = append(out, mk(i, ver, int32(h), jitter(rng, b, s.Jitter), st, signer, NewKey(s.PayoutBase+i).FA().String()))
+		prices := jitter(rng, b, s.Jitter)
+		for a, v := range s.Extreme {
+			if a >= 0 && a < len(prices) {
+				prices[a] = v
+			}
+		}
+		out = append(out, mk(i, ver, int32(h), prices, st, signer, NewKey(s.PayoutBase+i).FA().String()))
 	}
 	for j, kind := range s.Bad {
 		i := s.N + j
